@@ -111,28 +111,39 @@ type session struct {
 	vbs    map[uint16]*mvb
 	step   int
 	// in-flight save
-	saveDone      chan struct{}
-	inflight      *saveCall
-	saveBeginStep int
-	genAtSave     map[uint16]int
-	settledAtSave map[uint16]int    // len(settled) per vb when the current/last save call began
-	dAtSave       map[uint16]uint64 // D(v) when the save began (0,false if not advanced)
-	dAdvAtSave    map[uint16]bool
-	cleanSince    bool // nothing settled since the dump of the last successful save
-	labels        map[string]bool
-	oracles       map[string]bool
-	viol          *hViolation
-	excludeF1     bool
-	excluded      int
-	sessionNo     int
-	trackSeen     int
-	trackBase     int
-	lo, hi        int      // currently assigned range
-	old           []*oldEv // events of earlier sessions of this stream object (before a rebalance)
-	stopped       bool
-	onRebalance   func(op hOp) (lo, hi int) // C16: announce a new membership through the real discovery
-	rebalances    int
-	scrapeClosed  func()
+	saveDone       chan struct{}
+	inflight       *saveCall
+	saveBeginStep  int
+	genAtSave      map[uint16]int
+	settledAtStore map[uint16]int    // len(settled) per vb when the store call of the current save was entered
+	settledAtSave  map[uint16]int    // len(settled) per vb when the current/last save call began
+	dAtSave        map[uint16]uint64 // D(v) when the save began (0,false if not advanced)
+	dAdvAtSave     map[uint16]bool
+	cleanSince     bool // nothing settled since the dump of the last successful save
+	labels         map[string]bool
+	oracles        map[string]bool
+	viol           *hViolation
+	excludeF1      bool
+	excluded       int
+	sessionNo      int
+	trackSeen      int
+	trackBase      int
+	lo, hi         int      // currently assigned range
+	old            []*oldEv // events of earlier sessions of this stream object (before a rebalance)
+	stopped        bool
+	queued         *queuedSave               // a second Save() issued while one is in flight (waits for the save lock)
+	onRebalance    func(op hOp) (lo, hi int) // C16: announce a new membership through the real discovery
+	rebalances     int
+	scrapeClosed   func()
+}
+
+type queuedSave struct {
+	done       chan struct{}
+	settledAt  map[uint16]int
+	dAt        map[uint16]uint64
+	dAdvAt     map[uint16]bool
+	genAt      map[uint16]int
+	cleanAtBeg bool
 }
 
 type oldEv struct {
@@ -857,7 +868,7 @@ func (s *session) onDurableWrite(call *saveCall, vb uint16, t ckTuple) {
 		return
 	}
 	// C01 (1): the written seqno is the resume position or that of an event settled before the save began
-	n := s.settledAtSave[vb]
+	n := s.settledAtStore[vb] // settled before the write (the store call) began
 	ok := t.Seq == m.resume.Seq
 	for _, ev := range m.settled[:n] {
 		if ev.ev.Seq == t.Seq {
@@ -894,7 +905,9 @@ func (s *session) noteSaveBegin() {
 	s.dAtSave = map[uint16]uint64{}
 	s.dAdvAtSave = map[uint16]bool{}
 	s.genAtSave = map[uint16]int{}
+	s.settledAtStore = map[uint16]int{}
 	for vb, m := range s.vbs {
+		s.settledAtStore[vb] = len(m.settled)
 		s.genAtSave[vb] = m.dirtyGen
 		s.settledAtSave[vb] = len(m.settled)
 		s.dAtSave[vb] = m.dSeq
@@ -1014,6 +1027,64 @@ func (s *session) saveBegin() {
 	}
 }
 
+// savequeue: a second Save() is issued while the first is still inside the store. It must not report
+// completion before everything settled before IT began is durable (it may wait for the first one).
+func (s *session) saveQueue() {
+	if s.inflight == nil || s.queued != nil {
+		return
+	}
+	// its own "before that save began" snapshot
+	keepS, keepD, keepA, keepG, keepT := s.settledAtSave, s.dAtSave, s.dAdvAtSave, s.genAtSave, s.settledAtStore
+	s.noteSaveBegin()
+	q := &queuedSave{done: make(chan struct{}), settledAt: s.settledAtSave, dAt: s.dAtSave, dAdvAt: s.dAdvAtSave, genAt: s.genAtSave, cleanAtBeg: s.cleanSince}
+	s.settledAtSave, s.dAtSave, s.dAdvAtSave, s.genAtSave, s.settledAtStore = keepS, keepD, keepA, keepG, keepT
+	go func() { defer close(q.done); s.st.Save() }()
+	s.label("save_queued_behind_inflight")
+	select {
+	case <-q.done:
+		// it returned while the first save is still in flight: it made no store call of its own
+		dur := s.meta.snapshot()
+		for vb := range s.vbs {
+			if q.dAdvAt[vb] && dur[vb].Seq < q.dAt[vb] {
+				s.fail("C05", "vb %d: a save issued while another was in flight returned without a store call, although position %d (settled before it began) is not durable (stored %d) and the save in flight was dumped before it", vb, q.dAt[vb], dur[vb].Seq)
+			}
+		}
+	case <-time.After(3 * time.Millisecond):
+		s.queued = q // waiting for the save lock
+	}
+}
+
+// promoteQueued: the first save returned; the queued one now runs.
+func (s *session) promoteQueued() {
+	q := s.queued
+	if q == nil {
+		return
+	}
+	s.queued = nil
+	s.settledAtSave, s.dAtSave, s.dAdvAtSave, s.genAtSave = q.settledAt, q.dAt, q.dAdvAt, q.genAt
+	s.meta.mu.Lock()
+	s.meta.block = true
+	s.meta.mu.Unlock()
+	select {
+	case call := <-s.meta.entered:
+		s.inflight = call
+		s.saveDone = q.done
+		// its dump was taken after it got the save lock, i.e. now: everything settled so far may be in it
+		s.settledAtStore = map[uint16]int{}
+		for vb, m := range s.vbs {
+			s.settledAtStore[vb] = len(m.settled)
+		}
+		s.label("queued_save_reached_store")
+	case <-q.done:
+		s.meta.mu.Lock()
+		s.meta.block = false
+		s.meta.mu.Unlock()
+		s.afterSave(nil, false, q.cleanAtBeg && s.cleanSince, nil)
+	case <-time.After(20 * time.Second):
+		s.fail("C05", "a queued Save() neither reached the store nor returned after the save in flight completed")
+	}
+}
+
 func (s *session) saveEnd(op hOp) {
 	if s.inflight == nil {
 		return
@@ -1028,7 +1099,7 @@ func (s *session) saveEnd(op hOp) {
 	mAt := map[uint16]uint64{}
 	for vb, m := range s.vbs {
 		mAt[vb] = m.resume.Seq
-		for _, ev := range m.settled[:s.settledAtSave[vb]] {
+		for _, ev := range m.settled[:s.settledAtStore[vb]] {
 			if ev.ev.Seq > mAt[vb] {
 				mAt[vb] = ev.ev.Seq
 			}
@@ -1036,7 +1107,7 @@ func (s *session) saveEnd(op hOp) {
 	}
 	settledDuring := false
 	for vb, m := range s.vbs {
-		if len(m.settled) > s.settledAtSave[vb] {
+		if len(m.settled) > s.settledAtStore[vb] {
 			settledDuring = true
 		}
 	}
@@ -1047,9 +1118,11 @@ func (s *session) saveEnd(op hOp) {
 		s.fail("C05", "Save() did not return after the store call completed")
 	}
 	s.inflight = nil
-	s.meta.mu.Lock()
-	s.meta.block = false
-	s.meta.mu.Unlock()
+	if s.queued == nil {
+		s.meta.mu.Lock()
+		s.meta.block = false
+		s.meta.mu.Unlock()
+	}
 	if !op.Fail {
 		s.cleanSince = !settledDuring
 		s.label("save_ok")
@@ -1058,6 +1131,7 @@ func (s *session) saveEnd(op hOp) {
 		}
 	}
 	s.afterSave(call, op.Fail, false, mAt)
+	s.promoteQueued()
 }
 
 // crash: the process dies now. An in-flight save applies `n` of its per-vBucket writes first.
@@ -1068,6 +1142,7 @@ func (s *session) crash(op hOp) {
 		s.meta.release <- saveOutcome{err: errInjected, writes: op.N, order: op.Ord}
 		<-s.saveDone
 		s.inflight = nil
+		s.drainQueued()
 		s.meta.mu.Lock()
 		s.meta.block = false
 		s.meta.mu.Unlock()
@@ -1132,12 +1207,37 @@ func (s *session) crash(op hOp) {
 	}
 }
 
+// drainQueued lets a queued save run to its end without judging it (the process is going away).
+func (s *session) drainQueued() {
+	q := s.queued
+	if q == nil {
+		return
+	}
+	s.queued = nil
+	select {
+	case <-s.meta.entered:
+		s.meta.release <- saveOutcome{err: errInjected, writes: 0}
+		<-q.done
+	case <-q.done:
+	case <-time.After(20 * time.Second):
+	}
+}
+
 // end-of-history checks common to all properties using the engine
 func (s *session) finish() {
 	if s.inflight != nil {
 		s.meta.release <- saveOutcome{writes: -1}
 		<-s.saveDone
 		s.inflight = nil
+		s.promoteQueued()
+		if s.inflight != nil {
+			s.meta.release <- saveOutcome{writes: -1}
+			<-s.saveDone
+			s.inflight = nil
+		}
+		s.meta.mu.Lock()
+		s.meta.block = false
+		s.meta.mu.Unlock()
 	}
 	s.checkTracks()
 	// leave no goroutine behind: close the stream (manual checkpointing: no save inside)
@@ -1168,6 +1268,8 @@ func runHistory(sc *hScenario, excludeF1 bool, oracles ...string) (*hViolation, 
 			} else {
 				s.saveBegin()
 			}
+		case "savequeue":
+			s.saveQueue()
 		case "saveend":
 			if s.inflight == nil {
 				s.saveBegin()
